@@ -22,7 +22,10 @@ from mir_eval import segment as S
 from core import Case
 
 PID = "C16"
-LEAN_MODULES = ["MirProofs.Props.C16"]
+LEAN_MODULES = ["MirProofs.Props.C16", "MirProofs.Props.C16_GenIndex"]
+# segindex: _contingency_matrix, _adjusted_rand_index and the bodies of pairwise / rand_index / ari regenerated from the
+# source (lean/MirGen/SegIndex.lean) and proved equal to the hand model (Props/C16_GenIndex.lean); scalars: util.f_measure
+TRANSLATOR_PARTS = ["segindex", "scalars"]
 RULE = ("valid labelled segmentations with equal span starting at 0 on the 1/32 lattice (dyadic frame sizes) "
         "and on a decimal stream (0.1 s frames, boundaries >= 1e-2 from the frame grid); thorough: all pairs of "
         "restricted-growth label sequences of <= 8 frames over <= 3 labels (exact metrics: every pair; entropy "
@@ -563,8 +566,114 @@ def rgs_flags(a, b):
     return ami_ill, nmi_ill, (n >= 2 and (ka > 1 or kb > 1))
 
 
+# ----------------------------------------------------------------------------------------
+# the index functions as REGENERATED from the source (driver op `gen.segindex`, lean/MirGen/SegIndex.lean) vs the real
+# functions: exercises the translator's own semantic assumptions (np.unique(return_inverse) + COO scatter, NumPy-scalar
+# vs Python division, comb, the chained == of the special cases) on label sequences directly
+
+def _seq_info(fn, a, b, beta="1"):
+    """replayable description + what `classify` needs to turn a disagreement into an oracle input"""
+    return {"op": "gen.segindex", "fn": fn, "seq_ref": [int(x) for x in a], "seq_est": [int(x) for x in b], "beta": str(beta)}
+
+
+def _gen_private_cases(a, b, tag):
+    """the two private functions on the index arrays themselves"""
+    ya, yb = np.array(a, dtype=int), np.array(b, dtype=int)
+    nontriv = len(a) >= 2 and (len(set(a)) > 1 or len(set(b)) > 1)
+    yield Case("gen.segindex", ["_contingency_matrix", list(a), list(b)],
+               lambda ya=ya, yb=yb: S._contingency_matrix(ya, yb),
+               tag=tag + " contingency", info=_seq_info("_contingency_matrix", a, b), nontrivial=nontriv)
+    yield Case("gen.segindex", ["_adjusted_rand_index", list(a), list(b)],
+               lambda ya=ya, yb=yb: S._adjusted_rand_index(ya, yb),
+               tag=tag + " ari", info=_seq_info("_adjusted_rand_index", a, b), nontrivial=nontriv)
+
+
+def _gen_public_cases(a, b, rng, tag, beta=Fr(1)):
+    """pairwise / rand_index / ari (translated prologue + core) on the unit-frame realisation of two sequences"""
+    n = len(a)
+    rows, arr = _unit(n)
+    rl, el = ["r%d" % v for v in a], ["E%d" % v for v in b]
+    nontriv = n >= 2 and (len(set(a)) > 1 or len(set(b)) > 1)
+    fb = float(beta)
+    yield Case("gen.segindex", ["pairwise", rows, rl, rows, el, Fr(1), beta],
+               lambda: S.pairwise(arr, rl, arr, el, frame_size=1.0, beta=fb),
+               tag=tag + " pairwise", info=_seq_info("pairwise", a, b, beta), nontrivial=nontriv)
+    yield Case("gen.segindex", ["rand_index", rows, rl, rows, el, Fr(1), beta],
+               lambda: S.rand_index(arr, rl, arr, el, frame_size=1.0, beta=fb),
+               tag=tag + " rand_index", info=_seq_info("rand_index", a, b, beta), nontrivial=nontriv)
+    yield Case("gen.segindex", ["ari", rows, rl, rows, el, Fr(1)],
+               lambda: S.ari(arr, rl, arr, el, frame_size=1.0),
+               tag=tag + " ari_public", info=_seq_info("ari", a, b, beta), nontrivial=nontriv)
+
+
+def suite_gen_segindex(rng, tier, shard, nshards):
+    """ALL pairs of restricted-growth sequences up to 4 (quick) / 6 (thorough) frames over <= 3 labels, random sequences
+    with arbitrary (non-dense, unsorted) index values up to 40 frames, all-distinct / one-label / unequal-length /
+    empty inputs; public functions also on lattice annotations (prologue externs)."""
+    cases = []
+    nmax = 4 if tier == "quick" else 6
+    for n in range(1, nmax + 1):
+        seqs = rgs(n, 3)
+        for a in seqs:
+            for b in seqs:
+                cases += list(_gen_private_cases(a, b, "rgs n=%d" % n))
+                cases += list(_gen_public_cases(a, b, rng, "rgs n=%d" % n))
+    # corners
+    for a, b in ([], []), ([3], [7]), ([0, 1], [0]), ([0], [0, 1]), ([], [0]), ([0, 0, 1], [0, 0]), ([1, 1, 1], [2, 2, 2]), \
+            ([0, 1, 2, 3], [3, 2, 1, 0]), ([0, 1, 2, 3], [0, 0, 0, 0]), ([4, 4], [9, 1]):
+        cases += list(_gen_private_cases(a, b, "corner"))
+    for i, c in enumerate(cases):
+        if i % nshards == shard:
+            yield c
+    # random (every shard draws its own)
+    for _ in range(60 if tier == "quick" else 1500):
+        n = rng.choice([2, 3, 5, 8, 8, 13, 21, 40])
+        ka, kb = rng.randint(1, min(n, 6)), rng.randint(1, min(n, 6))
+        pa, pb = rng.sample(range(0, 50), ka), rng.sample(range(0, 50), kb)     # arbitrary index values
+        a = [rng.choice(pa) for _ in range(n)]
+        r = rng.random()
+        if r < 0.15:
+            m = dict(zip(sorted(set(a)), rng.sample(range(0, 50), len(set(a)))))
+            b = [m[v] for v in a]                                                 # the same partition renamed
+        elif r < 0.25:
+            b = list(range(n)) if rng.random() < 0.5 else [pb[0]] * n
+            if rng.random() < 0.5:
+                a = rng.sample(range(0, 60), n)                                   # all distinct
+        else:
+            b = [rng.choice(pb) for _ in range(n)]
+        for c in _gen_private_cases(a, b, "random n=%d" % n):
+            yield c
+        if n <= 13:
+            for c in _gen_public_cases(a, b, rng, "random n=%d" % n, rng.choice([Fr(1), Fr(1, 2), Fr(2)])):
+                yield c
+    # the translated public functions on lattice annotations (validation, empty sides, frame sampling = externs)
+    for _ in range(10 if tier == "quick" else 200):
+        ref, est, fs = rand_pair_E(rng)
+        if rng.random() < 0.1:
+            ref, est = ([], est) if rng.random() < 0.5 else (ref, [])
+        elif rng.random() < 0.1 and est:
+            est = est[:-1] + [(est[-1][0], est[-1][1] + Fr(1, 32), est[-1][2])]      # end mismatch -> ValueError
+        beta = rng.choice([Fr(1), Fr(1, 2), Fr(2)])
+        ri, rl = to_arrays(ref)
+        ei, el = to_arrays(est)
+        f, bb = float(fs), float(beta)
+        margs = model_args(ref, est)
+        info = {"op": "gen.segindex", "ref": [[str(s), str(e), l] for s, e, l in ref],
+                "est": [[str(s), str(e), l] for s, e, l in est], "frame_size": str(fs), "beta": str(beta)}
+        yield Case("gen.segindex", ["pairwise"] + margs + [fs, beta],
+                   lambda ri=ri, rl=rl, ei=ei, el=el, f=f, bb=bb: S.pairwise(ri, rl, ei, el, frame_size=f, beta=bb),
+                   tag="E pairwise", info=dict(info, fn="pairwise"))
+        yield Case("gen.segindex", ["rand_index"] + margs + [fs, beta],
+                   lambda ri=ri, rl=rl, ei=ei, el=el, f=f, bb=bb: S.rand_index(ri, rl, ei, el, frame_size=f, beta=bb),
+                   tag="E rand_index", info=dict(info, fn="rand_index"))
+        yield Case("gen.segindex", ["ari"] + margs + [fs],
+                   lambda ri=ri, rl=rl, ei=ei, el=el, f=f: S.ari(ri, rl, ei, el, frame_size=f),
+                   tag="E ari_public", info=dict(info, fn="ari"))
+
+
 SUITES = {"lattice": suite_lattice, "decimal": suite_decimal, "irregular": suite_irregular,
-          "frames": suite_frames, "index_labels": suite_index_labels, "rgs": suite_rgs}
+          "frames": suite_frames, "index_labels": suite_index_labels, "rgs": suite_rgs,
+          "gen_segindex": suite_gen_segindex}
 # stream F: the segment fixture files (real boundary grids and label vocabularies), lattice and 0.1 s frames
 from suites import fixtures as _FX  # noqa: E402
 if "segment_frames" in _FX.SUITES:
@@ -861,8 +970,39 @@ def _oracle_gen(site):
 
 ORACLES = {site: _oracle_gen(site) for site in CHECKERS}
 
+_GEN_SITES = {"pairwise": ["segment.pairwise"], "rand_index": ["segment.rand_index"], "ari": ["segment.ari"],
+              "_adjusted_rand_index": ["segment.ari"],
+              "_contingency_matrix": ["segment.ari", "segment.mutual_information", "segment.nce"]}
+
+
+def _classify_gen(i):
+    """a disagreeing gen.segindex case: the same label sequences (as unit-frame segments) / the same annotations are
+    tried against the definition of the metric(s) the function feeds, on the real code"""
+    sites = _GEN_SITES.get(i.get("fn"), [])
+    if "seq_ref" in i:
+        a, b = i["seq_ref"], i["seq_est"]
+        if len(a) != len(b) or not a:
+            return None     # not a pair of frame sequences of one recording: no valid input of the property
+        inp = {"ref": [[str(k), str(k + 1), "r%d" % v] for k, v in enumerate(a)],
+               "est": [[str(k), str(k + 1), "e%d" % v] for k, v in enumerate(b)],
+               "frame_size": "1", "beta": i.get("beta", "1")}
+    elif i.get("ref") and i.get("est"):
+        inp = {"ref": i["ref"], "est": i["est"], "frame_size": i["frame_size"], "beta": i.get("beta", "1")}
+    else:
+        return None
+    import warnings
+    for site in sites:
+        with warnings.catch_warnings():
+            warnings.simplefilter("ignore")
+            if CHECKERS[site](inp) is not None:
+                return site, inp
+    return (sites[0], inp) if sites else None
+
+
 def classify(suite, d):
     """Map a disagreeing case on *valid* input to (site, oracle input); other suites have no oracle."""
+    if suite == "gen_segindex":
+        return _classify_gen(d.get("info") or {})
     if suite not in ("lattice", "decimal", "rgs", "fixtures.segment_frames"):
         return None
     i = d.get("info") or {}
